@@ -307,12 +307,23 @@ def random_case(draw):
     return {"ops": ops, "initial": initial, "choices": choices}
 
 
+BULK = ["n%03d" % i for i in range(505)]        # a store with several hundred names (an implementation may treat long listings specially)
+BULK_CATALOGUE = [
+    (BULK, [[("list", "n")], [("remove", "n499")]]),
+    (BULK, [[("list", "n")], [("remove", "n503")]]),
+    (BULK, [[("list", "n5")], [("register", "n5zz", URI2, False)]]),
+    (BULK, [[("list", "n")], [("remove", "n001"), ("remove", "n504")]]),
+]
+
+
 def SHARDS(tier):
     k = 1 if tier == "quick" else 2
     sh = [{"part": "enum", "cat": i, "preemptions": k} for i in range(len(CATALOGUE))]
     sh += [{"part": "enum", "cat": i, "preemptions": 2 if sum(len(ops) for ops in opset) <= 2 else 1, "storage": "sql"} for i, (_init, opset) in enumerate(CATALOGUE)
            if any(o[0] == "lookup" for ops in opset for o in ops)]
     sh += [{"part": "enum", "cat": i, "preemptions": 1, "servertype": "multiplex"} for i in range(len(CATALOGUE))]
+    # (~2500 scheduling steps per trial, every single deviation from run-to-block; quick tier: two of the four op-sets)
+    sh += [{"part": "enum", "bulk": i, "cat": 0, "preemptions": 1} for i in range(len(BULK_CATALOGUE)) if tier != "quick" or i in (1, 2)]
     sh += [{"part": "random"} for _ in range(4 if tier == "quick" else 8)]
     sh += [{"part": "random", "servertype": "multiplex"} for _ in range(1 if tier == "quick" else 3)]
     sh += [{"part": "random", "storage": "sql"} for _ in range(1 if tier == "quick" else 3)]
@@ -322,7 +333,7 @@ def SHARDS(tier):
 def run(ctx):
     sh = ctx.shard
     if sh.get("part") == "enum":
-        initial, opset = CATALOGUE[sh["cat"]]
+        initial, opset = CATALOGUE[sh["cat"]] if "bulk" not in sh else BULK_CATALOGUE[sh["bulk"]]
         opset_l = [[list(o) for o in ops] for ops in opset]
 
         def run_with(preempt):
